@@ -9,6 +9,8 @@ use std::collections::HashSet;
 pub enum HOp {
     /// get / get_key_value: returned value id
     Get { ret: Option<u64> },
+    /// a write whose result is not observable (an item of `extend`): the cell holds `new` afterwards
+    Put { new: u64 },
     Contains { ret: bool },
     Insert { new: u64, ret: Option<u64> },
     /// Ok(()) inserted, Err(current value id)
@@ -54,6 +56,7 @@ fn apply(op: &HOp, s: Option<u64>) -> Option<Option<u64>> {
                 None
             }
         }
+        HOp::Put { new } => Some(Some(*new)),
         HOp::Contains { ret } => {
             if *ret == s.is_some() {
                 Some(s)
